@@ -2902,6 +2902,10 @@ The what argument tells us what sort of state is expected (allowed values are de
         out = []
         latest = None
 
+        # a single stack may be given as a string; "root in eupsPathDirs" below must not be a substring test
+        if eupsPathDirs is not None and not isinstance(eupsPathDirs, list):
+            eupsPathDirs = [eupsPathDirs]
+
         # first get all the currently setup products.  We will integrate these
         # into the list
         setup = {}
